@@ -179,6 +179,69 @@ def run_cases(c, cs, variant="asan", tag="c04", prop_what="output differs from t
     return execs
 
 
+def stream_cipher_cases(c, chunkings):
+    """ZUC-128/256 keystream, byte and bit-exact (EEA3) encryption, EIA3 / ZUC / ZUC-256 MACs in every chunking, ChaCha20 block counter"""
+    rng = c.rng
+    rb = lambda k: bytes(rng.getrandbits(8) for _ in range(k))
+    out = []
+
+    def add(**kw):
+        kw["id"] = len(out) + 1
+        out.append({k: (CL.hx(v) if isinstance(v, (bytes, bytearray)) else v) for k, v in kw.items()})
+    q = c.quick
+    keys = [bytes(16), b"\xff" * 16, rb(16), rb(16)]
+    for key in keys:
+        iv = rng.choice([bytes(16), b"\xff" * 16, rb(16)])
+        for nw in (0, 1, 2, 33) + (() if q else (257, 1024)):
+            add(f="zuc_ks", api="oneshot", key=key, iv=iv, nwords=nw)
+        k32, iv23 = rng.choice([bytes(32), b"\xff" * 32, rb(32)]), rng.choice([bytes(23), rb(17) + bytes(6), rb(23)])
+        iv23 = iv23[:17] + bytes(b & 0x3f for b in iv23[17:])       # ZUC-256: the last six IV bytes carry 6-bit values... packed form is produced by the reference
+        add(f="zuc256_ks", api="oneshot", key=k32, iv=iv23, nwords=rng.choice([1, 2, 20]))
+        for L in (list(range(0, 40)) + [63, 64, 65, 255, 256, 1000]) if not q else (0, 1, 3, 4, 5, 8, 31, 32, 33, 100):
+            add(f="zuc_enc", api="oneshot", key=key, iv=iv, msg=rb(L) or "-")
+        for ch in chunkings[:: (6 if q else 1)][: (12 if q else 200)]:
+            msg = rb(sum(ch))
+            add(f="zuc_enc", api="stream", key=key, iv=iv, msg=msg or "-", nbits=8 * len(msg), chunks=",".join(map(str, ch)) or "0")
+        for nbits in ([1, 7, 8, 9, 31, 32, 33, 63, 64, 65, 100, 193, 800] if q else list(range(1, 130)) + [193, 255, 256, 257, 800, 2047, 2048, 4019]):
+            nby = (nbits + 31) // 32 * 4
+            msg = rb(nby)
+            count, bearer, d = rng.choice([0, 1, 0x7fffffff, 0x80000000, 0xffffffff, rng.getrandbits(32)]), rng.randrange(32), rng.randrange(2)
+            add(f="eea3", api="oneshot", key=key, msg=msg, nbits=nbits, count=count, bearer=bearer, dir=d)
+            add(f="eia3", api="oneshot", key=key, msg=msg, nbits=nbits, count=count, bearer=bearer, dir=d)
+            whole = nbits // 8
+            cut = sorted(rng.sample(range(0, whole + 1), min(whole + 1, rng.randrange(0, 3))))
+            chs = [b - a for a, b in zip([0] + cut, cut + [whole])] if whole else [0]
+            add(f="zuc_mac", api="stream", key=key, iv=iv, msg=msg[:(nbits + 7) // 8], nbits=nbits, chunks=",".join(map(str, chs)))
+            for mb in (32, 64, 128):
+                add(f="zuc256_mac", api="stream", key=k32, iv=iv23, msg=msg[:(nbits + 7) // 8], nbits=nbits, macbits=mb, chunks=",".join(map(str, chs)))
+    for _ in range(4 if q else 20):
+        k, nonce = rb(32), rb(12)
+        for ctr in (0, 1, 0xfffffffe, 0xffffffff, rng.getrandbits(32)):
+            add(f="chacha20_ks", api="oneshot", key=k, iv=nonce, counter=ctr.to_bytes(4, "little"), nwords=rng.choice([1, 2, 3, 5]))
+    return out
+
+
+def run_stream_cases(c, cs):
+    res = CL.run_script("zucdrv", ["zucdrv.c", "vh.c"], cs, tag="c04z")
+    execs = []
+    for case, evs, san in res:
+        k = "zucdrv:%s:%s:%s" % (case["f"], case.get("api"), ":".join("%s=%s" % (kk, (vv if len(str(vv)) < 20 else "len%d" % (len(str(vv)) // 2))) for kk, vv in case.items() if kk not in ("f", "api", "id", "key")))
+        c.count(1, k)
+        if san or not evs:
+            c.violation(k + ":crash", "driver died / sanitizer report: %s" % san, {"case": case})
+            continue
+        execs.append((k, case, CL.annotate(evs)))
+    rej, states = vlib.validate("CryptoTrace", [e[2] for e in execs], tag="c04z", timeout=1500, max_reject=12)
+    c.cov["traces_validated_against_impl"] += len(execs)
+    c.cov["trace_states"] = c.cov.get("trace_states", 0) + states
+    for i, j, ev in rej:
+        k, case, evs = execs[i]
+        short = {kk: (vv if kk not in ("T", "in", "out") else "<%d>" % len(vv)) for kk, vv in ev.items()}
+        c.violation(k, "output differs from the stream cipher / MAC definition over the reference keystream (event #%d %s)" % (j, json.dumps(short)[:300]),
+                    {"case": case, "event_index": j, "events": [{kk: vv for kk, vv in e.items() if kk != "T"} for e in evs]})
+    return execs
+
+
 def body():
     c = Check("C04", "model_checking")
     for kind in ("enc", "dec", "aead"):
@@ -188,6 +251,9 @@ def body():
     cs = gen(c, chunkings)
     log("[C04] %d cases" % len(cs))
     execs = run_cases(c, cs)
+    zs = stream_cipher_cases(c, chunkings)
+    log("[C04] %d stream cipher cases" % len(zs))
+    run_stream_cases(c, zs)
     if not c.quick:
         for variant in ("small", "aesni", "avx2"):
             try:
@@ -200,8 +266,8 @@ def body():
     return c.finish(
         rule="cases = (mode, cipher, API style, parameter classes, length, chunking); streaming cases use the chunkings TLC generates from Stream.tla scaled to 16-byte blocks; "
              "one-shot cases cover every length 0..%d; distinct = distinct case keys; TLC judges each execution by recomputing the mode from Modes.tla" % (80 if c.quick else 1100),
-        trusted=["TLC", "ref/sm4ref.py, ref/aesref.py block functions, ref/gf128ref.py multiplication (self-tested against standard vectors)", "harness/modedrv.c"],
-        assumptions=["ZUC and ChaCha20 are checked by the separate stream-cipher part (when present in this tier)"])
+        trusted=["TLC", "ref/sm4ref.py, ref/aesref.py block functions, ref/gf128ref.py multiplication, ref/zucref.py, ref/chacharef.py keystream generators (self-tested against standard vectors)", "harness/modedrv.c, harness/zucdrv.c"],
+        assumptions=["the ZUC / ChaCha20 keystream generators are primitives (reference tables); encryption, EEA3 bit handling, EIA3 / ZUC-256 MAC bit windows, IV layouts and the block counter are computed by TLC"])
 
 
 if __name__ == "__main__":
